@@ -16,6 +16,23 @@ CHECKS = {
         design='4/C09'),
 }
 
+CHECKS.update({
+    'C01': dict(level='other', technique='abstract interpretation of MIR per operand-pair cell vs exact rational oracle',
+        text=('Decides the NaR/zero algebra and guard evaluation order of + - * / (const methods) for all operand pairs of each control-determinate cell. '
+              'Does NOT decide rounding/alignment on the general arithmetic path.'), design='4/C01'),
+    'C02': dict(level='other', technique='abstract interpretation of MIR per float-bit-pattern cell vs exact oracle',
+        text=('Decides +-0, NaN/inf, saturation thresholds and +-1 of from_f32/from_f64 for the three types on every control-determinate cell of float bit patterns. '
+              'Does NOT decide bitround on the general path.'), design='4/C02'),
+    'C06': dict(level='other', technique='abstract interpretation per cell + literal-table agreement with exact integer square roots',
+        text=('P8E0::sqrt decided for all 256 inputs (table indexing term + every table entry vs exact root); P16E1/P32E2: NaR, negative, zero and literal cut-point cells. '
+              'Newton-Raphson general path not decided.'), design='4/C06'),
+    'C07': dict(level='other', technique='abstract interpretation of MIR per integer / posit cell vs exact round-half-even oracle',
+        text=('Decides saturation thresholds, small-value branches, sign handling and narrow-width forwarding of from_*/to_* integer conversions per control-determinate cell. '
+              'General-path rounding not decided.'), design='4/C07'),
+    'C08': dict(level='other', technique='abstract interpretation of MIR per source-format cell vs exact oracle',
+        text=('Decides zero/NaR preservation and saturation thresholds of the six width conversions (both spellings). Narrowing rounding between thresholds not decided.'), design='4/C08'),
+})
+
 NOT_APPLICABLE = {
 }
 
